@@ -89,7 +89,7 @@ class Cond(object):
 
 
 def cond(bounds='', family=None, timeout=None, thorough_timeout=None, reach=True, tiers=('quick', 'thorough'),
-         outside=''):
+         outside='', engine='crosshair'):
     """Register a condition.
 
     bounds  -- human-readable statement of what is symbolic and in which range
@@ -100,7 +100,8 @@ def cond(bounds='', family=None, timeout=None, thorough_timeout=None, reach=True
     def deco(fn):
         reg = fn.__globals__.setdefault('__conds__', [])
         reg.append(Cond(fn, dict(bounds=bounds, family=family, timeout=timeout,
-                                 thorough_timeout=thorough_timeout, reach=reach, tiers=tiers, outside=outside)))
+                                 thorough_timeout=thorough_timeout, reach=reach, tiers=tiers, outside=outside,
+                                 engine=engine)))
         return fn
     return deco
 
